@@ -5,6 +5,7 @@ concrete violation on the implementation trace."""
 import json, os, random, re
 import common as C
 import gen
+import motifs
 import oracles as O
 from trace import parse_cfg, _kv
 
@@ -48,6 +49,8 @@ def with_estimates(case, nkeys=12):
     every insert (C13: decision predicted from the implementation's own estimates)."""
     name, lines = case
     keys = sorted({int(l.split()[1]) for l in lines[1:] if l.split()[0] in ("I", "G", "C", "X")})
+    if len(keys) > 24:      # never more than 24 estimate reads per insert (the history would grow quadratically)
+        keys = keys[:12] + keys[-12:]
     out = [lines[0]]
     for l in lines[1:]:
         if l.startswith("I "):
@@ -106,11 +109,19 @@ def gen_cases(pid, rng, tier, kinds):
                 if pid == "C13":
                     case = with_estimates(case)
             cases.append(case)
+        # scenario composer: 3-7 motifs (pending ops, weight-changing updates, 0 / exact / oversized weights,
+        # exact deadlines, re-insertion, same-instant operations, bursts, ...) over a small key universe
+        mo = [motifs.gen_motif_case(rng, kind, 6000 + i) for i in range((200 if pid != "C13" else 100) if tier == "quick" else 1500)]
+        if pid in ("C12", "C13") and kind == "sync":
+            mo = [sync_every_op(c) for c in mo]
+        if pid == "C13":
+            mo = [with_estimates(c) for c in mo]
+        cases += mo
         if pid in ("C08", "C10", "C11", "C03", "C09"):
             cases += [gen.gen_skip_case(rng, kind, 8000 + i) for i in range(60 if tier == "quick" else 600)]
         if pid in ("C07", "C03", "C05", "C01"):
             cases += [gen.gen_reinsert_case(rng, kind, 8500 + i) for i in range(60 if tier == "quick" else 600)]
-        if pid in ("C16", "C05", "C06", "C01"):
+        if pid in ("C16", "C05", "C06", "C01", "C07"):
             cases += [gen.gen_window_case(rng, kind, 8700 + i) for i in range(50 if tier == "quick" else 500)]
         if pid in ("C03", "C04", "C12", "C05", "C10", "C16", "C01"):
             ex = [gen.gen_excess_case(rng, kind, 8900 + i) for i in range(50 if tier == "quick" else 500)]
@@ -119,6 +130,11 @@ def gen_cases(pid, rng, tier, kinds):
                 # order is the history's only then: reads and writes travel through separate queues)
                 ex = [sync_every_op(c) for c in ex]
             cases += ex
+        if pid in ("C04", "C03", "C12", "C10"):
+            se = [gen.gen_stuck_excess_case(rng, kind, 8950 + i) for i in range(6 if tier == "quick" else 40)]
+            if pid == "C12" and kind == "sync":
+                se = [sync_every_op(c) for c in se]
+            cases += se
         extra = 4 if tier == "quick" else 30
         if pid in ("C03", "C05", "C06", "C08", "C10", "C11", "C01", "C16"):
             nme = extra // 2 if pid not in ("C05", "C06") else (extra * 8 if kind == "unsync" else extra * 2)
@@ -203,7 +219,8 @@ def run(pid, tier, seed, model_ok, replay):
         srng = random.Random(seed * 13 + 16)
         scases = []
         for i in range(6 if tier == "quick" else 80):
-            scases.append((f"iterstress{i}", [f"cfg kind=stress cap={srng.choice(['none', 1000])} hasher={srng.choice(['id', 'mul:11400714819323198485'])}",
+            # (with churn a spreading hasher: under the identity hasher small resident keys always come first in walk order)
+            scases.append((f"iterstress{i}", [f"cfg kind=stress cap={srng.choice(['none', 1000])} hasher={srng.choice(['id', 'mul:11400714819323198485']) if i % 2 == 0 else 'mul:11400714819323198485'}",
                                               f"ITER writers={srng.choice([1, 2, 3, 4])} iters={srng.choice([1, 2, 3])} keys={srng.choice([8, 40, 64, 300])} "
                                               f"rounds={srng.choice([100, 300])} seed={srng.randrange(10**6)}"
                                               + (f" churn={srng.choice([1, 2])}" if i % 2 else "")]))
@@ -285,7 +302,18 @@ def run_cases(pid, oracle, project, cases, model_ok, max_report=3):
     # every key at clock readings around the configured deadlines.
     if disagreements and not violations:
         probes = []
-        for name, lines, detail in disagreements[:12]:
+        # up to 40 disagreeing histories, spread over the configurations (a change often shows up as many harmless
+        # state differences and only in a few configurations as a wrong answer)
+        groups = {}
+        for dgr in disagreements:
+            c0 = parse_cfg(dgr[1][0])
+            groups.setdefault((c0["kind"], c0["ttl"] is None, c0["tti"] is None, c0["cap"] is None), []).append(dgr)
+        picked = []
+        while len(picked) < 40 and any(groups.values()):
+            for g in list(groups.values()):
+                if g and len(picked) < 40:
+                    picked.append(g.pop(0))
+        for name, lines, detail in picked:
             cfg = parse_cfg(lines[0])
             m = re.match(r"line (\d+):", detail)
             cut = int(m.group(1)) + 1 if m else len(lines) - 1
